@@ -14,6 +14,8 @@ numpy.False_, None); grand-canonical simulations also carry a shipped plain comp
 that deletes a two-atom particle and inserts a one-atom one in the same trial.
 Grand-canonical simulations also replace a table entry under its existing name in mid-run; every second user criteria
 is falsy (empty) until its first decision.
+Every other simulation registers new classes under the user components' names after the first rebuild and rebuilds
+again: instances of the classes registered at that moment must come out.
 """
 from __future__ import annotations
 
@@ -34,7 +36,7 @@ ASSUMPTIONS = [
     "a notification may also be delivered when nothing changed; what is judged is that one IS delivered (to every table member) after each accepted change",
     "bare moves change the cell only in Isobaric / Isotension (the drivers whose state includes the cell and which can revert it) and the atom count changes only in GrandCanonical (through the shipped exchange move next to the bare move)",
 ]
-REQUIRED = {"entries_replaced_under_their_name": 20, "accepted_swaps_changing_atom_count": 5, "bare_move_calls": 1500, "bare_criteria_calls": 500, "falsy_results": 300, "truthy_results": 300, "atom_count_changes": 100, "cell_changes": 100, "roundtrips": 12, "attribute_accesses_logged": 2000, "bare_criteria_verdicts_checked": 300}
+REQUIRED = {"rebuilds_after_reregistration": 60, "entries_replaced_under_their_name": 20, "accepted_swaps_changing_atom_count": 5, "bare_move_calls": 1500, "bare_criteria_calls": 500, "falsy_results": 300, "truthy_results": 300, "atom_count_changes": 100, "cell_changes": 100, "roundtrips": 12, "attribute_accesses_logged": 2000, "bare_criteria_verdicts_checked": 300}
 SHARD_TIMEOUT = {"quick": 900, "thorough": 3000}
 
 PROTOCOL = {"__call__", "evaluate", "on_atoms_changed", "on_cell_changed", "to_dict", "from_dict"}
@@ -347,6 +349,25 @@ def run(spec):
                     rec.viol(f"C20/not-rebuilt-from-dictionary/{driver}", f"the bare move '{name}' was not rebuilt from the simulation's dictionary", wit0)
                 elif isinstance(crit, UserCriteria) and type(st2.criteria) is not UserCriteria:
                     rec.viol(f"C20/not-rebuilt-from-dictionary/{driver}", f"the bare criteria of '{name}' was not rebuilt", wit0)
+            # the user's classes redefined under their names (a notebook cell run again, a class factory per run): what is
+            # rebuilt from a dictionary afterwards is an instance of the class registered NOW
+            if i % 2 == 0:
+                NewMove = type("UserMove", (UserMove,), {"generation": i + 1})
+                NewCriteria = type("UserCriteria", (UserCriteria,), {"generation": i + 1})
+                register_class(NewMove, "UserMove")
+                register_class(NewCriteria, "UserCriteria")
+                try:
+                    mc3 = get_class(data["name"]).from_dict(decode(encode(mc.to_dict())))
+                    rec.count("rebuilds_after_reregistration")
+                    for name, mv, crit, *_ in users:
+                        st3 = mc3.moves.get(name)
+                        if st3 is None or type(st3.move) is not NewMove:
+                            rec.viol(f"C20/rebuilt-with-a-class-no-longer-registered/{driver}", f"after another class was registered under the name 'UserMove', the bare move '{name}' was rebuilt as {type(st3.move).__name__ if st3 is not None else None} of generation {getattr(getattr(st3, 'move', None), 'generation', 0)}", wit0)
+                        elif isinstance(crit, UserCriteria) and type(st3.criteria) is not NewCriteria:
+                            rec.viol(f"C20/rebuilt-with-a-class-no-longer-registered/{driver}", f"after another class was registered under the name 'UserCriteria', the bare criteria of '{name}' was rebuilt with the old class", wit0)
+                finally:
+                    register_class(UserMove, "UserMove")
+                    register_class(UserCriteria, "UserCriteria")
         except Exception as ex:  # noqa: BLE001
             rec.viol(f"C20/serialization-raised/{driver}/{type(ex).__name__}", f"serializing / rebuilding a simulation with bare components raised {type(ex).__name__}: {ex}"[:300], wit0)
         # attribute discipline
